@@ -1206,7 +1206,7 @@ func (x *c10Run) patternCases() []*c10DownresCase {
 				v /= 3
 			}
 			out = append(out, cs)
-			if f == 0 && hasNil {
+			if f <= 2 && hasNil { // fillings 1 and 2 put solid label-0 octants next to nil octants over prior content
 				cp := *cs
 				cp.prior = prior
 				cp.empty = false
